@@ -159,6 +159,39 @@ func genDTree(r *Rng, depth int, name string) *genDChart {
 	return c
 }
 
+func genPlainRepeat(r *Rng) (*genDChart, map[string]any) {
+	root := &genDChart{Name: "p", Values: map[string]any{}, MetaDeps: []*genDep{}, Subs: []*genDChart{}}
+	s := &genDChart{Name: "s", Values: map[string]any{"x": "s"}, MetaDeps: []*genDep{}, Subs: []*genDChart{}}
+	leaves := []string{"t", "u", "w"}[:2+r.Intn(2)]
+	for _, ln := range leaves {
+		s.Subs = append(s.Subs, &genDChart{Name: ln, Values: map[string]any{"x": "leaf-" + ln}, MetaDeps: []*genDep{}, Subs: []*genDChart{}})
+		d := &genDep{Name: ln, Conditions: [][]string{}, Tags: []string{}}
+		if r.Chance(85) {
+			d.condRaw = ln + ".enabled"
+			d.Conditions = [][]string{{ln, "enabled"}}
+			if r.Chance(50) {
+				setAtPath(s.Values, ln+".enabled", r.Bool())
+			}
+		}
+		s.MetaDeps = append(s.MetaDeps, d)
+	}
+	root.Subs = []*genDChart{s}
+	vals := map[string]any{}
+	for j := 0; j < 2+r.Intn(2); j++ {
+		alias := fmt.Sprintf("s%c", 'a'+rune(j))
+		root.MetaDeps = append(root.MetaDeps, &genDep{Name: "s", Alias: alias, Conditions: [][]string{}, Tags: []string{}})
+		for _, ln := range leaves {
+			switch r.Intn(4) {
+			case 0:
+				setAtPath(vals, alias+"."+ln+".enabled", r.Bool())
+			case 1:
+				setAtPath(root.Values, alias+"."+ln+".enabled", r.Bool())
+			}
+		}
+	}
+	return root, vals
+}
+
 func (g *genDChart) real() *chart.Chart {
 	c := &chart.Chart{Metadata: &chart.Metadata{Name: g.Name, Version: "0.1.0", APIVersion: "v2"}, Values: deepCopyMap(g.Values)}
 	for _, d := range g.MetaDeps {
@@ -201,6 +234,48 @@ func hasRepeatWithSubs(g *genDChart) bool {
 	return false
 }
 
+// repeatShape: how the subtree of a repeated chart looks (the ways in which the copies of a repeated chart are
+// known to interfere): its own dependencies carry aliases, are themselves repeated, or have dependencies of
+// their own; "plain" when none of these holds.
+func repeatShape(g *genDChart) string {
+	cnt := map[string]int{}
+	for _, d := range g.MetaDeps {
+		cnt[d.Name]++
+	}
+	out := ""
+	for _, s := range g.Subs {
+		if cnt[s.Name] > 1 && len(s.Subs) > 0 {
+			sh := ""
+			sub := map[string]int{}
+			for _, d := range s.MetaDeps {
+				if d.Alias != "" {
+					sh += "alias,"
+					break
+				}
+			}
+			for _, d := range s.MetaDeps {
+				sub[d.Name]++
+				if sub[d.Name] > 1 {
+					sh += "repeat,"
+					break
+				}
+			}
+			for _, ss := range s.Subs {
+				if len(ss.Subs) > 0 {
+					sh += "deep,"
+					break
+				}
+			}
+			if sh == "" {
+				sh = "plain,"
+			}
+			out += sh
+		}
+		out += repeatShape(s)
+	}
+	return out
+}
+
 func hasRepeat(g *genDChart) bool {
 	cnt := map[string]int{}
 	for _, d := range g.MetaDeps {
@@ -220,9 +295,17 @@ func hasRepeat(g *genDChart) bool {
 func corrDeps(seed uint64, n int, tier string, out string, replay string) {
 	m := StartModel()
 	defer m.Close()
-	rep := NewReport("C11", "deps", seed, "case = dependency tree (depth<=3; charts s/t/u, aliases, the same chart listed twice, unlisted charts) with conditions (1-2 comma-separated paths) and tags decided by booleans / non-booleans / nothing in chart defaults and user values, nested global tables set at different levels, parent sections under (alias) names; ProcessDependencies + ToRenderValues + engine.Render compared with the model: pruned tree, coalesced values, and the .Values each chart's probe template sees; non-trivial = at least one condition or tag is decided; distinct = hash of chart tree and values")
+	rep := NewReport("C11", "deps", seed, "case = dependency tree (depth<=3; charts s/t/u, aliases, the same chart listed twice, unlisted charts; every eighth case a chart listed two or three times under aliases whose own plain dependencies sit behind conditions decided per copy) with conditions (1-2 comma-separated paths) and tags decided by booleans / non-booleans / nothing in chart defaults and user values, nested global tables set at different levels, parent sections under (alias) names; ProcessDependencies + ToRenderValues + engine.Render compared with the model: pruned tree, coalesced values, and the .Values each chart's probe template sees; non-trivial = at least one condition or tag is decided; distinct = hash of chart tree and values")
 	for i := 0; i < n; i++ {
 		r := NewRng(seed, uint64(i))
+		if i%8 == 5 {
+			// targeted stream: a chart listed two or three times under aliases whose own dependencies are plain
+			// (listed, no aliases, leaves), each behind a condition decided per copy
+			g, vals := genPlainRepeat(r)
+			rep.H("plain-repeat-case")
+			depsCase(m, rep, g, vals, true, seed, i)
+			continue
+		}
 		g := genDTree(r, 0, "p")
 		vals := map[string]any{}
 		// user values deciding some conditions / tags, and sections
@@ -276,7 +359,11 @@ func depsCase(m *Model, rep *Report, g *genDChart, vals map[string]any, nontrivi
 	got := treeJSON(c)
 	if !jsonEqual(got, want["ok"]) {
 		fp := "C11:enabled-tree"
-		if hasRepeatWithSubs(g) {
+		if sh := repeatShape(g); strings.Contains(sh, "alias") || strings.Contains(sh, "repeat") || strings.Contains(sh, "deep") {
+			// the copies of a repeated chart share their dependency records and subchart objects: the copies are
+			// known to interfere when those records are renamed (aliases), looked up by name more than once
+			// (repeats) or processed themselves (dependencies of their own).  A repeated chart whose own
+			// dependencies are plain is handled correctly on the unchanged tree and is not excused.
 			fp = "C11:enabled-tree:repeated-dependency-with-subcharts"
 		}
 		rep.Issue(Issue{Kind: "disagreement", Fingerprint: fp, What: "the tree of enabled dependencies after ProcessDependencies differs from the model", Case: cs, Model: want["ok"], Impl: got, Seed: seed, Index: idx})
